@@ -79,7 +79,7 @@ def write_meta_image(data: Tensor, grid: Grid, path: PathUri, compress: bool = T
             raise ValueError("write_image() data.ndim must be equal to grid.ndim or grid.ndim + 1")
         meta = {
             "CompressedData": compress,
-            "ElementNumberOfChannels": data.shape[0],
+            "ElementNumberOfChannels": data.shape[0] if data.ndim == grid.ndim + 1 else 1,
             "ElementSpacing": grid.spacing().cpu().numpy(),
             "Offset": grid.origin().cpu().numpy(),
             "TransformMatrix": grid.direction().cpu().numpy(),
